@@ -499,9 +499,46 @@ impl Ctx {
         // every model of the path is replayed as that candidate (whose concrete value the
         // scenario computes itself — hash outputs have no transferable model value)
         for (name, v, cands) in self.adv_candidates.clone() {
-            for (k, c) in cands.iter().enumerate() {
-                if (0..self.cfg.n_worlds).all(|w| self.eval(w, v) == self.eval(w, *c)) {
-                    out.push((format!("among:{name}"), format!("{k:x}")));
+            let nw = self.cfg.n_worlds;
+            let vv: Vec<U> = (0..nw).map(|w| self.eval(w, v)).collect();
+            let cv: Vec<Vec<U>> = cands.iter().map(|c| (0..nw).map(|w| self.eval(w, *c)).collect()).collect();
+            if let Some(k) = (0..cands.len()).find(|k| (0..nw).all(|w| vv[w] == cv[*k][w])) {
+                out.push((format!("among:{name}"), format!("{k:x}")));
+                continue;
+            }
+            // otherwise: a combination of the candidates with coefficients in {-1, 0, 1} (e.g. "the
+            // honest value plus the error another participant removed"), found by search over the
+            // worlds (a 256-bit coincidence in every world is not a false positive to worry about,
+            // and the replay decides anyway)
+            let k = cands.len().min(9);
+            if k >= 2 {
+                let total = 3usize.pow(k as u32);
+                'combos: for code in 1..total {
+                    let mut c = code;
+                    let mut coef = [0i8; 9];
+                    let mut nz = 0;
+                    for slot in coef.iter_mut().take(k) {
+                        *slot = (c % 3) as i8 - 1;
+                        c /= 3;
+                        nz += (*slot != 0) as usize;
+                    }
+                    if nz < 2 {
+                        continue;
+                    }
+                    for w in 0..nw {
+                        let mut acc = U::ZERO;
+                        for j in 0..k {
+                            if coef[j] == 1 {
+                                acc = self.m.add(&acc, &cv[j][w]);
+                            } else if coef[j] == -1 {
+                                acc = self.m.sub(&acc, &cv[j][w]);
+                            }
+                        }
+                        if acc != vv[w] {
+                            continue 'combos;
+                        }
+                    }
+                    out.push((format!("lin:{name}"), coef[..k].iter().map(|c| ((c + 1) as u8 + b'0') as char).collect()));
                     break;
                 }
             }
